@@ -570,6 +570,9 @@ func C02(c *core.Ctx) {
 	}
 	handedOn(c, "R5", []string{"PDR", "FAR"})
 	driverHandsOver(c, "R5", []string{"PDR", "FAR"})
+	// "no value is truncated": an attribute longer than the 16-bit netlink length is cut by go-nl; the rule is
+	// length-checked before it is handed over (C07 P8)
+	shareFrom(c, "C07", "R3", func(o *core.Obligation) bool { return o.Rule == "P8" && strings.Contains(o.Key, "/P8/attr-length-checked:") }, 4, "PDR/FAR hand-over sites with datagram-sized attributes")
 	handlerDispatch(c, "R5", map[string]bool{"PDR": true, "FAR": true})
 	// "id not in this session" excuses an Update from reaching the driver only if the session's id sets are
 	// accurate: ids are forgotten only after a successful Remove (C01 R4)
